@@ -6,6 +6,7 @@ import (
 	"context"
 	"io"
 	"os"
+	"strings"
 
 	"github.com/bmeg/grip/config"
 	"github.com/bmeg/grip/gdbi"
@@ -13,6 +14,7 @@ import (
 	"github.com/bmeg/grip/kvgraph"
 	"github.com/bmeg/grip/kvi"
 	"github.com/bmeg/grip/server"
+	"github.com/bmeg/grip/util"
 	"google.golang.org/grpc/metadata"
 )
 
@@ -22,13 +24,39 @@ type srvEnv struct {
 	srv *server.GripServer
 }
 
+// a graph database whose bulk load goes through util.StreamBatch, as in the mongo, psql and elastic drivers (which
+// cannot run here): the batching writer checks the graph named in every element
+type batchDB struct{ gdbi.GraphDB }
+
+func (b batchDB) Graph(name string) (gdbi.GraphInterface, error) {
+	g, err := b.GraphDB.Graph(name)
+	if err != nil {
+		return nil, err
+	}
+	return batchGraph{g, name}, nil
+}
+
+type batchGraph struct {
+	gdbi.GraphInterface
+	name string
+}
+
+func (g batchGraph) BulkAdd(stream <-chan *gdbi.GraphElement) error {
+	return util.StreamBatch(stream, 50, g.name, g.GraphInterface.AddVertex, g.GraphInterface.AddEdge)
+}
+
 func newSrvEnv(driver string) (*srvEnv, error) {
 	dir, _ := os.MkdirTemp("", "srv")
+	batched := strings.HasSuffix(driver, "+batch")
+	driver = strings.TrimSuffix(driver, "+batch")
 	kv, err := kvi.NewKVInterface(driver, dir+"/db", nil)
 	if err != nil {
 		return nil, err
 	}
-	db := kvgraph.NewKVGraph(kv)
+	var db gdbi.GraphDB = kvgraph.NewKVGraph(kv)
+	if batched {
+		db = batchDB{db}
+	}
 	conf := config.DefaultConfig()
 	conf.Server.WorkDir = dir + "/work"
 	conf.Default = "d"
